@@ -29,7 +29,7 @@ Notation step_at := (step_at V zero has_err sh).
 Notation cstep := (cstep V zero has_err sh).
 Notation run := (run V zero has_err sh).
 Notation wf := (wf V).
-Notation Rel := (Rel V sh).
+Notation Rel := (Rel V).
 Notation added := (added V).
 Notation change := (change V).
 Notation spec_accepts := (spec_accepts V zero sh).
@@ -69,7 +69,7 @@ Lemma LinInv_event : forall g tid p,
   LinInv (mkG (fst (sec_prim p (g_st g))) (mkEv tid p (snd (sec_prim p (g_st g))) :: g_log g) (g_runs g)).
 Proof.
   intros [s l r] tid p [HRel Hacc]. cbn [g_st g_log g_runs] in *.
-  destruct (Rel_step V zero sh p s _ HRel) as [H1 H2].
+  destruct (Rel_step V zero has_err sh p s _ HRel) as [H1 H2].
   unfold LinInv. rewrite hist_of_cons. cbn [g_st]. rewrite spec_final_snoc.
   assert (hist_of (mkG (fst (sec_prim p s)) l r) = hist_of (mkG s l r)) as E by reflexivity.
   rewrite E. split; [exact H1|]. now apply spec_accepts_snoc.
@@ -231,8 +231,8 @@ Proof.
   - (* f() *)
     inversion Hstep; subst; clear Hstep. cbn [g_st g_runs]. split; [|constructor].
     split; [exact HLin|]. split; [exact Hrest|].
-    cbn [pend flat_map pend_i app] in Hnd, Hpres. fold (pend rest) in Hnd, Hpres.
-    assert (Permutation (k :: pend rest ++ P ++ g_runs g) (pend rest ++ P ++ k :: g_runs g)) as HP.
+    cbn [pend flat_map pend_i app] in Hnd, Hpres. fold (pend t') in Hnd, Hpres.
+    assert (Permutation (k :: pend t' ++ P ++ g_runs g) (pend t' ++ P ++ k :: g_runs g)) as HP.
     { rewrite !app_assoc. apply Permutation_middle. }
     split.
     + eapply Permutation_NoDup; [exact HP|exact Hnd].
@@ -318,7 +318,7 @@ Lemma start_inv : forall nsh progs, Inv (start V nsh progs).
 Proof.
   intros nsh progs. unfold start, Inv. cbn [fst snd g_st g_runs].
   split; [|split; [|split]].
-  - split; [apply Rel_init|exact I].
+  - split; [apply (Rel_init V zero has_err sh)|exact I].
   - apply Forall_forall. intros t Ht. apply in_map_iff in Ht. destruct Ht as [p [E _]]. subst t.
     apply prog_plain.
   - assert (pending (map (fun p => concat (map (expand V nsh) p)) progs) = []) as E.
@@ -336,6 +336,35 @@ Definition reach (nsh : nat) (progs : list (list (top V))) (sched : list nat) : 
 
 Lemma reach_inv : forall nsh progs sched, Inv (reach nsh progs sched).
 Proof. intros; apply run_inv, start_inv. Qed.
+
+(* every step of every thread is silent (fast path miss, released wait, f()) or is exactly one atomic
+   operation: the single step at which the operation takes effect and which fixes its result *)
+Definition effect_of (c c' : config) : Prop :=
+  (g_st (snd c') = g_st (snd c) /\ g_log (snd c') = g_log (snd c))
+  \/ exists tid p, g_log (snd c') = mkEv tid p (snd (sec_prim p (g_st (snd c)))) :: g_log (snd c)
+                 /\ g_st (snd c') = fst (sec_prim p (g_st (snd c))).
+
+Lemma tstep_effect : forall tid g t t' g', tstep tid g t = Some (t', g') ->
+  (g_st g' = g_st g /\ g_log g' = g_log g)
+  \/ exists p, g_log g' = mkEv tid p (snd (sec_prim p (g_st g))) :: g_log g /\ g_st g' = fst (sec_prim p (g_st g)).
+Proof.
+  intros tid g t t' g' H. destruct t as [|[p|k q|k q|c k|k] rest]; cbn [C15.tstep] in H; [discriminate|..].
+  - right. exists p. destruct (sec_prim p (g_st g)) as [s' r]. inversion H; subst. cbn. auto.
+  - destruct (sec_get_fast V zero k (g_st g)) as [r|] eqn:E; inversion H; subst; [|now left].
+    right. exists (PGet k). rewrite (get_fast_prim k (g_st g) r E). cbn. auto.
+  - right. exists (PGet k). rewrite (get_slow_prim k (g_st g)).
+    destruct (sec_get_slow V zero k (g_st g)) as [s' r]. inversion H; subst. cbn. auto.
+  - destruct (cmem c (closed (g_st g))); inversion H; subst. now left.
+  - inversion H; subst. now left.
+Qed.
+
+Lemma cstep_effect : forall c n, effect_of c (cstep c n).
+Proof.
+  intros [ths g] n. unfold C15.cstep, effect_of. cbn [fst snd].
+  destruct (step_at n n ths g) as [[ths' g']|] eqn:E; cbn [snd]; [|now left].
+  destruct (step_at_split _ _ _ _ _ _ E) as [l1 [t [l2 [t' [_ [_ [_ Hstep]]]]]]].
+  destruct (tstep_effect _ _ _ _ _ Hstep) as [H|[p H]]; [now left|right; now exists n, p].
+Qed.
 
 (* ---------- the theorems about all interleavings ---------- *)
 (* linearisability: the effect steps, in the order in which they happened, are a run of the
@@ -363,11 +392,43 @@ Proof.
   - intros Ha. rewrite (no_lost_wakeup V _ c k W Hi Ha). discriminate.
 Qed.
 
+Lemma nodup_app_r : forall A (a b : list A), NoDup (a ++ b) -> NoDup b.
+Proof. intros A a b; induction a as [|x a IH]; cbn [app]; [auto|]. intros H; inversion H; auto. Qed.
+
 (* GetOrSet's function runs at most once per key *)
 Theorem getorset_once : forall nsh progs sched, NoDup (g_runs (snd (reach nsh progs sched))).
 Proof.
   intros. destruct (reach_inv nsh progs sched) as [_ [_ [Hnd _]]].
-  apply NoDup_app_remove_l in Hnd. exact Hnd.
+  exact (nodup_app_r _ _ _ Hnd).
+Qed.
+
+(* a value, once added, is changed only by the effect step of an overwriting Set of that key *)
+Theorem step_value_stable : forall nsh progs sched n k v,
+  let c := reach nsh progs sched in
+  afind k (tbl (g_st (snd c))) = Some (Val v) ->
+  afind k (tbl (g_st (snd (cstep c n)))) = Some (Val v)
+  \/ exists tid v' r, g_log (snd (cstep c n)) = mkEv tid (PSet k v' true) r :: g_log (snd c).
+Proof.
+  intros nsh progs sched n k v c Hk.
+  destruct (cstep_effect c n) as [[Hs _]|[tid [p [Hl Hs]]]]; rewrite Hs; [now left|].
+  destruct (prim_value_stable V zero sh p _ k v Hk) as [H|[v' Hp]]; [now left|].
+  right. subst p. exists tid, v'. eexists. exact Hl.
+Qed.
+
+(* no spurious wake-up: a step closes a channel only if it adds the key the channel was made for;
+   that key is unique, so adding k' never closes the channel of another key k *)
+Theorem step_no_spurious : forall nsh progs sched n ch,
+  let c := reach nsh progs sched in
+  cmem ch (closed (g_st (snd c))) = false ->
+  cmem ch (closed (g_st (snd (cstep c n)))) = true ->
+  exists k, In (ch, k) (alloc (g_st (snd c))) /\ ~ added k (g_st (snd c)) /\ added k (g_st (snd (cstep c n)))
+            /\ (forall k', In (ch, k') (alloc (g_st (snd c))) -> k' = k).
+Proof.
+  intros nsh progs sched n ch c Ho Hc. pose proof (reach_wf nsh progs sched) as W. fold c in W.
+  assert (change (g_st (snd c)) (g_st (snd (cstep c n)))) as C.
+  { destruct (cstep_effect c n) as [[Hs _]|[tid [p [_ Hs]]]]; rewrite Hs; [constructor|apply sec_prim_change]. }
+  destruct (change_closes V _ _ ch W C Ho Hc) as [k [H1 [H2 H3]]].
+  exists k. repeat split; auto. intros k' Hk'. exact (wf_chan_key V _ W ch k' k Hk' H1).
 Qed.
 
 End Lts.
